@@ -153,8 +153,18 @@ func (w *World) reuseLentSlices() {
 func (p *Program) Apply(w *World) *rux.Router {
 	r := p.Opts.NewRouter()
 	var run func(ss []*Stmt)
+	n := 0
 	run = func(ss []*Stmt) {
 		for _, s := range ss {
+			n++
+			// between its registrations the application also looks at what it has built so far (read-only API), and
+			// now and then makes a call that the router refuses and recovers from it: neither leaves anything behind
+			switch n % 6 {
+			case 2:
+				model.Observe(r)
+			case 4:
+				model.RejectedCalls(r, model.RouteDef{Methods: []string{"GET"}}, "/zz-rejected/{id}", n/6)
+			}
 			switch s.Kind {
 			case "use":
 				r.Use(w.funcs(s.Hs, s.Spare)...)
@@ -189,11 +199,22 @@ func (p *Program) Apply(w *World) *rux.Router {
 				case 2:
 					rt := rux.NewRoute(s.Path, main, s.Methods...)
 					rt.Use(w.funcs(s.PreUse, s.Spare)...)
+					model.ObserveRoute(rt)
 					rt.AttachTo(r)
 					rt.Use(w.funcs(s.Variadic, s.Spare)...)
 					s.Route = rt
 				default:
 					r.Any(s.Path, main, w.funcs(s.Variadic, s.Spare)...)
+				}
+				if rt := s.Route; rt != nil && n%3 == 0 {
+					// more middleware than a route may carry: refused as a whole
+					model.TryCall(func() {
+						many := make([]rux.HandlerFunc, 70)
+						for i := range many {
+							many[i] = model.RejectedStray
+						}
+						rt.Use(many...)
+					})
 				}
 				for _, l := range s.Later {
 					if s.Route != nil {
